@@ -235,6 +235,27 @@ func NewReq(method, path string) *http.Request {
 	}
 }
 
+// WriterLeaver installs a global middleware (call it before any other Use) that, for requests carrying
+// the X-Leave-Writer header, answers through a writer of its own which it puts into c.Resp and never
+// takes out again. The returned function sends such a request: the pooled context the next request
+// of this router gets was last used that way.
+func WriterLeaver(r *rux.Router) (leave func()) {
+	r.Use(func(c *rux.Context) {
+		if c.Req.Header.Get("X-Leave-Writer") != "" {
+			c.Resp = &c05Buffer{hdr: http.Header{}}
+			c.Text(200, "answered through a writer that stays in c.Resp")
+			c.Abort()
+			return
+		}
+		c.Next()
+	})
+	return func() {
+		req := NewReq("GET", "/left-writer-behind")
+		req.Header.Set("X-Leave-Writer", "1")
+		_, _, _ = Serve(r, req)
+	}
+}
+
 // NewReqBody is NewReq with a body and content type.
 func NewReqBody(method, path, ctype string, body []byte) *http.Request {
 	req := NewReq(method, path)
